@@ -5,7 +5,8 @@
 (* observations), connection outcome and Rules classification are printed as one JSON line.       *)
 EXTENDS Body, Json, IOUtils
 
-Sc(fr, co, st, de, en, ch) == [framing |-> fr, coding |-> co, stacked |-> st, decode |-> de, enc |-> en, chunks |-> ch]
+Sc(fr, co, st, de, en, ch) == [framing |-> fr, coding |-> co, stacked |-> st, decode |-> de, enc |-> en, chunks |-> ch,
+                               large |-> FALSE]
 D(n) == [i \in 1..n |-> "d"]
 One(n) == D(n) \o <<"t">>                       \* a single member / frame carrying n units
 Two(a, b) == D(a) \o <<"t">> \o D(b) \o <<"t">>   \* two members / frames
@@ -55,6 +56,14 @@ ScC13 ==
     \cup Framed("strict", FALSE, TRUE, D(3), {<<1, 2>>})
     \cup Framed("strict", FALSE, TRUE, One(2) \o D(1), {<<3, 1>>})
     \cup Framed("strict", TRUE, TRUE, D(3), {<<3>>})
+
+\* the LARGE size class (more than 1 MiB of Content-Length; one unit = 2**18 bytes): stage 1 only, the real
+\* 1 MiB+ / 3 MiB bodies are enumerated by the harness (vh/bodycheck.py large_runs)
+ScLarge == { [x EXCEPT !.large = TRUE] : x \in Framed("identity", FALSE, TRUE, D(6), {<<3, 3>>})
+                                              \cup Framed("lenient", FALSE, TRUE, One(6), {<<4, 3>>}) }
+ScC12S1 == ScC12 \cup ScLarge
+ScC13S1 == ScC13 \cup ScLarge
+JustPW == {"PiecewiseReadHidesCut"}
 
 AllDamage == {"none", "cut", "badsize", "negsize", "emptysize", "corrupt"}
 OnlyNone == {"none"}
